@@ -70,3 +70,28 @@ Theorem geometry_from_input inp cfg : (forall k, In k ["width"; "height"; "crs";
   forall k, In k ["width"; "height"; "crs"; "transform"] -> lookup k (combine inp cfg) = lookup k inp.
 Proof. intros H k Hk. apply lookup_combine_other. apply H. exact Hk. Qed.
 End Profiles.
+
+(* ------------------------------------------------------------------ which image is viewed through a WarpedVRT (utils.same_orientation_crs)
+   snu / rnu: source / reference stored north-up; same: same CRS; psrc: the processing grid is the source grid.
+   An image that is not north-up is re-gridded in its own CRS (its north-up self: same pixels, C18's south-up clause); when the CRSs differ,
+   the image on the PROCESSING grid is re-projected into the other image's CRS. *)
+Definition vrt_src_flip (snu rnu same psrc : bool) : bool := negb snu && (same || negb psrc).
+Definition vrt_ref_flip (snu rnu same psrc : bool) : bool := negb rnu && (same || psrc).
+Definition vrt_src_to_ref_crs (snu rnu same psrc : bool) : bool := negb same && psrc.
+Definition vrt_ref_to_src_crs (snu rnu same psrc : bool) : bool := negb same && negb psrc.
+(* the corrected image takes its profile (CRS, transform, size) from the source AS THE READER SEES IT: it is in the source's own CRS
+   exactly when the source is not re-projected into the reference's *)
+Definition corrected_in_source_crs (snu rnu same psrc : bool) : bool := negb (vrt_src_to_ref_crs snu rnu same psrc).
+
+Theorem corrected_in_source_crs_iff snu rnu same psrc :
+  corrected_in_source_crs snu rnu same psrc = true <-> same = true \/ psrc = false.
+Proof. unfold corrected_in_source_crs, vrt_src_to_ref_crs. destruct same, psrc; cbn; intuition congruence. Qed.
+(* at most one of the two images changes CRS, and never both; with one CRS neither does *)
+Theorem one_image_changes_crs snu rnu same psrc :
+  vrt_src_to_ref_crs snu rnu same psrc && vrt_ref_to_src_crs snu rnu same psrc = false /\
+  (same = true -> vrt_src_to_ref_crs snu rnu same psrc = false /\ vrt_ref_to_src_crs snu rnu same psrc = false) /\
+  (same = false -> vrt_src_to_ref_crs snu rnu same psrc || vrt_ref_to_src_crs snu rnu same psrc = true).
+Proof. unfold vrt_src_to_ref_crs, vrt_ref_to_src_crs. destruct same, psrc; cbn; repeat split; intros; try reflexivity; try discriminate. Qed.
+(* known finding D18: different CRSs and the source as processing grid - the corrected image is NOT in the source's CRS *)
+Theorem mixed_crs_source_grid_refuted : exists snu rnu same psrc, corrected_in_source_crs snu rnu same psrc = false.
+Proof. exists true, true, false, true. reflexivity. Qed.
